@@ -1,12 +1,15 @@
 package main
 
-// c41-facts <overlay/reuse.go> <overlay/reaper.go> : print Gen.lean — the cache-status snapshot and the decision
-//                                  tree of QUIC.reuseConnection and what QUIC.reapPeer does with the cache entry,
+// c41-facts <overlay/reuse.go> <overlay/reaper.go> <overlay/transport.go> : print Gen.lean — the cache-status
+//                                  snapshot and the decision tree of QUIC.reuseConnection, what QUIC.reapPeer does
+//                                  with the cache entry, and which connections get a close-watcher that calls reapPeer
+//                                  once reuseConnection returned (QUIC.handleIncoming / QUIC.handleOutgoing),
 //                                  translated mechanically from the Go AST.
-// c41-lines <overlay/reuse.go> <overlay/reaper.go> : print the same functions as exhaustive tables (one row per
-//                                  input) for the harness: `snap <cached> <cdir> <dir> => <state>,<dir>`,
-//                                  `leaf <ps> <pd> <cached> <cdir> <dir> <rc> <rcdir> => <act>` and
-//                                  `reap <loaded> => del=…,closeCached=…,closeTrigger=…`.
+// c41-lines <overlay/reuse.go> <overlay/reaper.go> <overlay/transport.go> : print the same functions as exhaustive
+//                                  tables (one row per input) for the harness: `snap <cached> <cdir> <dir> => <state>,<dir>`,
+//                                  `leaf <ps> <pd> <cached> <cdir> <dir> <rc> <rcdir> => <act>`,
+//                                  `reap <loaded> => del=…,closeCached=…,closeTrigger=…` and
+//                                  `watch <dir> <reused> => returned=…,negotiated=…`.
 //
 // Supported shape (anything else aborts with a non-zero exit, which ./check reports as a broken obligation):
 //   snapshot: the `if cached {…} else {…}` that follows `cache, cached := t.cachedConnections.Load(qKey)`;
@@ -25,6 +28,15 @@ package main
 //             parameter, logging and the RTT bookkeeping (`t.rttMap.Delete`, `if t.RTTRecorder != nil {…}`), `return`.
 //             Facts per path: is the peer's cache entry gone afterwards (del), is the connection of the entry that was
 //             CACHED closed (closeCached), is the connection that triggered the reap closed (closeTrigger).
+//   handleIncoming / handleOutgoing (overlay/transport.go): everything up to and including
+//             `c, reused, err := t.reuseConnection(ctx, q, stream, directionX)` + `if err != nil { return nil, err }`
+//             may not start a goroutine nor call handlePeer / reapPeer; after it: ifs (with else / else-if, no init
+//             statement) over `reused`, `!reused`, `c.quic ==/!= q`, `&&`, `||`; `t.handlePeer(ctx, <c.quic|q>, c.peer,
+//             directionX)` (handlePeer itself must contain the close-watcher `go func(…){ <-q.Context().Done(); …;
+//             t.reapPeer(q, peer) }(q)`); a bare close-watcher `go func(<params>) { <-x.Context().Done(); <logging>;
+//             t.reapPeer(x, <peer>) }(<c.quic|q>, …)`; `return c.quic, nil`. Facts per (dir, reused): does the
+//             connection reuseConnection RETURNED get a close-watcher that reaps (returned), does the NEGOTIATED
+//             connection q get one although another connection was returned (negotiated).
 //   After the re-load `cached` means rc (does the re-load find an entry) and `cache.direction` means rcdir (the
 //   direction of the entry found by the re-load). `cache` is a nil pointer when the re-load finds nothing, so
 //   rcdir may only be read where rc = true is established: on the right of `cached && …` or inside the
@@ -709,21 +721,373 @@ func c41ReapTree(path string) *c41Node {
 	return nil
 }
 
-func c41Args(args []string) (string, string) {
-	if len(args) != 2 {
-		fmt.Fprintln(os.Stderr, "c41-facts: usage: c41-facts|c41-lines <overlay/reuse.go> <overlay/reaper.go>")
+
+// ---------- close-watchers started by handleIncoming / handleOutgoing (overlay/transport.go) ----------
+
+type c41WatchRow struct{ returned, negotiated bool }
+
+type c41WatchCtx struct {
+	fset    *token.FileSet
+	qName   string // the *quic.Conn parameter: the negotiated connection
+	cName   string // the *nodeConnection reuseConnection returned
+	rName   string // the reused flag
+	dirName string // directionIncoming / directionOutgoing
+}
+
+// what a connection expression denotes: "returned" (c.quic), "negotiated" (q), "" (anything else)
+func (c *c41WatchCtx) connOf(e ast.Expr) string {
+	switch c41Sel(e) {
+	case c.cName + ".quic":
+		return "returned"
+	case c.qName:
+		return "negotiated"
+	}
+	return ""
+}
+
+func (c *c41WatchCtx) cond(e ast.Expr, reused, same bool) bool {
+	switch x := e.(type) {
+	case *ast.ParenExpr:
+		return c.cond(x.X, reused, same)
+	case *ast.Ident:
+		if x.Name == c.rName {
+			return reused
+		}
+	case *ast.UnaryExpr:
+		if x.Op == token.NOT {
+			return !c.cond(x.X, reused, same)
+		}
+	case *ast.BinaryExpr:
+		switch x.Op {
+		case token.LAND:
+			return c.cond(x.X, reused, same) && c.cond(x.Y, reused, same)
+		case token.LOR:
+			return c.cond(x.X, reused, same) || c.cond(x.Y, reused, same)
+		case token.EQL, token.NEQ:
+			a, b := c.connOf(x.X), c.connOf(x.Y)
+			if a != "" && b != "" && a != b {
+				return same == (x.Op == token.EQL)
+			}
+		}
+	}
+	c41Fail(c.fset, e, "condition after reuseConnection in handleIncoming/handleOutgoing")
+	return false
+}
+
+// `go func(<params>) { <-x.Context().Done(); <logging>; t.reapPeer(x, …) }(<args>)`: which connection is watched
+func (c *c41WatchCtx) watcher(g *ast.GoStmt) string {
+	fl, ok := g.Call.Fun.(*ast.FuncLit)
+	if !ok {
+		c41Fail(c.fset, g, "go statement that is not a close-watcher literal")
+	}
+	bind := map[string]string{c.qName: "negotiated"} // captured names
+	pi := 0
+	for _, p := range fl.Type.Params.List {
+		for _, n := range p.Names {
+			if pi < len(g.Call.Args) {
+				if k := c.connOf(g.Call.Args[pi]); k != "" {
+					bind[n.Name] = k
+				} else {
+					delete(bind, n.Name)
+				}
+			}
+			pi++
+		}
+	}
+	connOf := func(e ast.Expr) string {
+		if k := c.connOf(e); k == "returned" {
+			return k
+		}
+		if id, ok := e.(*ast.Ident); ok {
+			return bind[id.Name]
+		}
+		return ""
+	}
+	body := fl.Body.List
+	if len(body) < 2 {
+		c41Fail(c.fset, g, "close-watcher body")
+	}
+	waited := ""
+	if es, ok := body[0].(*ast.ExprStmt); ok {
+		if u, ok := es.X.(*ast.UnaryExpr); ok && u.Op == token.ARROW {
+			if d, ok := u.X.(*ast.CallExpr); ok && len(d.Args) == 0 {
+				if sel, ok := d.Fun.(*ast.SelectorExpr); ok && sel.Sel.Name == "Done" {
+					if cc, ok := sel.X.(*ast.CallExpr); ok && len(cc.Args) == 0 {
+						if s2, ok := cc.Fun.(*ast.SelectorExpr); ok && s2.Sel.Name == "Context" {
+							waited = connOf(s2.X)
+						}
+					}
+				}
+			}
+		}
+	}
+	if waited == "" {
+		c41Fail(c.fset, body[0], "a goroutine started after reuseConnection must first wait for `<-<conn>.Context().Done()`")
+	}
+	reaps := false
+	for _, s := range body[1:] {
+		var ce *ast.CallExpr
+		if es, ok := s.(*ast.ExprStmt); ok {
+			ce, _ = es.X.(*ast.CallExpr)
+		}
+		if ce == nil {
+			c41Fail(c.fset, s, "statement in a close-watcher goroutine")
+		}
+		fn := c41Sel(ce.Fun)
+		switch {
+		case fn == "t.reapPeer":
+			if len(ce.Args) != 2 || connOf(ce.Args[0]) != waited {
+				c41Fail(c.fset, s, "reapPeer in a close-watcher must be called for the connection it waited for")
+			}
+			reaps = true
+		case strings.HasPrefix(fn, "t.Logger.") || strings.HasPrefix(fn, "l."):
+		default:
+			c41Fail(c.fset, s, "call in a close-watcher goroutine")
+		}
+	}
+	if !reaps {
+		c41Fail(c.fset, g, "close-watcher that does not call reapPeer")
+	}
+	return waited
+}
+
+// the statements after the error check of reuseConnection, for one (reused, c.quic == q) valuation: the watched set
+func (c *c41WatchCtx) walk(stmts []ast.Stmt, reused, same bool, w map[string]bool) (returned bool) {
+	for _, s := range stmts {
+		switch x := s.(type) {
+		case *ast.IfStmt:
+			if x.Init != nil {
+				c41Fail(c.fset, x, "if with init statement after reuseConnection")
+			}
+			if c.cond(x.Cond, reused, same) {
+				if c.walk(x.Body.List, reused, same, w) {
+					return true
+				}
+			} else if x.Else != nil {
+				switch e := x.Else.(type) {
+				case *ast.BlockStmt:
+					if c.walk(e.List, reused, same, w) {
+						return true
+					}
+				case *ast.IfStmt:
+					if c.walk([]ast.Stmt{e}, reused, same, w) {
+						return true
+					}
+				}
+			}
+		case *ast.ExprStmt:
+			call, ok := x.X.(*ast.CallExpr)
+			if !ok || c41Sel(call.Fun) != "t.handlePeer" || len(call.Args) != 4 {
+				c41Fail(c.fset, s, "statement after reuseConnection in handleIncoming/handleOutgoing")
+			}
+			k := c.connOf(call.Args[1])
+			if k == "" || c41Sel(call.Args[2]) != c.cName+".peer" || c41Sel(call.Args[3]) != c.dirName {
+				c41Fail(c.fset, s, "handlePeer arguments")
+			}
+			w[k] = true
+		case *ast.GoStmt:
+			w[c.watcher(x)] = true
+		case *ast.ReturnStmt:
+			if len(x.Results) != 2 || c.connOf(x.Results[0]) != "returned" || c41Sel(x.Results[1]) != "nil" {
+				c41Fail(c.fset, s, "return after reuseConnection (expected `return c.quic, nil`)")
+			}
+			return true
+		default:
+			c41Fail(c.fset, s, "statement after reuseConnection in handleIncoming/handleOutgoing")
+		}
+	}
+	return false
+}
+
+// does the node start a goroutine or call handlePeer / reapPeer?
+func c41Spawns(n ast.Node, goToo bool) (found ast.Node) {
+	ast.Inspect(n, func(m ast.Node) bool {
+		switch x := m.(type) {
+		case *ast.GoStmt:
+			if goToo {
+				found = x
+			}
+		case *ast.CallExpr:
+			if fn := c41Sel(x.Fun); fn == "t.handlePeer" || fn == "t.reapPeer" {
+				found = x
+			}
+		}
+		return found == nil
+	})
+	return
+}
+
+// handlePeer must start the close-watcher that reaps the connection it is given
+func c41CheckHandlePeer(fset *token.FileSet, fd *ast.FuncDecl) {
+	qName := ""
+	for _, p := range fd.Type.Params.List {
+		if st, ok := p.Type.(*ast.StarExpr); ok && c41Sel(st.X) == "quic.Conn" && len(p.Names) == 1 {
+			qName = p.Names[0].Name
+		}
+	}
+	if qName == "" {
+		c41Fail(fset, fd, "handlePeer has no *quic.Conn parameter")
+	}
+	c := &c41WatchCtx{fset: fset, qName: qName, cName: "\x00"}
+	n := 0
+	for _, s := range fd.Body.List {
+		if g, ok := s.(*ast.GoStmt); ok {
+			if _, lit := g.Call.Fun.(*ast.FuncLit); lit {
+				if c.watcher(g) != "negotiated" {
+					c41Fail(fset, g, "handlePeer's close-watcher does not watch its connection")
+				}
+				n++
+				continue
+			}
+			if f := c41Spawns(g.Call, false); f != nil {
+				c41Fail(fset, f, "reapPeer / handlePeer started directly by handlePeer")
+			}
+			continue
+		}
+		if f := c41Spawns(s, false); f != nil {
+			c41Fail(fset, f, "reapPeer / handlePeer call in handlePeer outside its close-watcher")
+		}
+	}
+	if n != 1 {
+		c41Fail(fset, fd, fmt.Sprintf("handlePeer starts %d close-watchers that reap (expected 1)", n))
+	}
+}
+
+// rows[dir][reused]
+func c41WatchFacts(path string) map[string]map[bool]c41WatchRow {
+	fset := token.NewFileSet()
+	f, err := parser.ParseFile(fset, path, nil, 0)
+	if err != nil {
+		fmt.Fprintln(os.Stderr, "c41-facts:", err)
+		os.Exit(1)
+	}
+	out := map[string]map[bool]c41WatchRow{}
+	want := map[string]string{"handleIncoming": "directionIncoming", "handleOutgoing": "directionOutgoing"}
+	sawHandlePeer := false
+	for _, d := range f.Decls {
+		fd, ok := d.(*ast.FuncDecl)
+		if !ok || fd.Body == nil {
+			continue
+		}
+		if fd.Name.Name == "handlePeer" {
+			c41CheckHandlePeer(fset, fd)
+			sawHandlePeer = true
+			continue
+		}
+		dirConst, ok := want[fd.Name.Name]
+		if !ok {
+			// reapPeer is called by the close-watchers and by reaper() only
+			if fd.Name.Name != "reaper" {
+				ast.Inspect(fd.Body, func(m ast.Node) bool {
+					if call, ok := m.(*ast.CallExpr); ok && c41Sel(call.Fun) == "t.reapPeer" {
+						c41Fail(fset, call, "reapPeer called from "+fd.Name.Name)
+					}
+					return true
+				})
+			}
+			continue
+		}
+		c := &c41WatchCtx{fset: fset, dirName: dirConst}
+		for _, p := range fd.Type.Params.List {
+			if st, ok := p.Type.(*ast.StarExpr); ok && c41Sel(st.X) == "quic.Conn" && len(p.Names) == 1 {
+				c.qName = p.Names[0].Name
+			}
+		}
+		if c.qName == "" {
+			c41Fail(fset, fd, fd.Name.Name+" has no *quic.Conn parameter")
+		}
+		list := fd.Body.List
+		at := -1
+		for i, s := range list {
+			as, ok := s.(*ast.AssignStmt)
+			if ok && len(as.Rhs) == 1 && len(as.Lhs) == 3 {
+				if call, ok := as.Rhs[0].(*ast.CallExpr); ok && c41Sel(call.Fun) == "t.reuseConnection" {
+					if len(call.Args) != 4 || c41Sel(call.Args[1]) != c.qName || c41Sel(call.Args[3]) != dirConst {
+						c41Fail(fset, s, "reuseConnection arguments in "+fd.Name.Name)
+					}
+					c.cName, c.rName = c41Sel(as.Lhs[0]), c41Sel(as.Lhs[1])
+					at = i
+					break
+				}
+			}
+			if f := c41Spawns(s, true); f != nil {
+				c41Fail(fset, f, "goroutine / handlePeer / reapPeer before reuseConnection in "+fd.Name.Name)
+			}
+		}
+		if at < 0 || at+1 >= len(list) {
+			c41Fail(fset, fd, "no `c, reused, err := t.reuseConnection(…)` in "+fd.Name.Name)
+		}
+		// the error check: `if err != nil { return nil, err }`
+		chk, ok := list[at+1].(*ast.IfStmt)
+		okChk := ok && chk.Init == nil && chk.Else == nil && len(chk.Body.List) == 1
+		if okChk {
+			be, ok := chk.Cond.(*ast.BinaryExpr)
+			rs, ok2 := chk.Body.List[0].(*ast.ReturnStmt)
+			okChk = ok && ok2 && be.Op == token.NEQ && c41Sel(be.X) == "err" && c41Sel(be.Y) == "nil" &&
+				len(rs.Results) == 2 && c41Sel(rs.Results[0]) == "nil"
+		}
+		if !okChk {
+			c41Fail(fset, list[at+1], "reuseConnection not followed by `if err != nil { return nil, err }`")
+		}
+		dir := "incoming"
+		if dirConst == "directionOutgoing" {
+			dir = "outgoing"
+		}
+		out[dir] = map[bool]c41WatchRow{}
+		for _, reused := range []bool{true, false} {
+			var rows [2]c41WatchRow
+			for k, same := range []bool{true, false} {
+				w := map[string]bool{}
+				if !c.walk(list[at+2:], reused, same, w) {
+					c41Fail(fset, fd, fd.Name.Name+" does not end with `return c.quic, nil`")
+				}
+				if same { // q IS the returned connection
+					rows[k] = c41WatchRow{returned: w["returned"] || w["negotiated"]}
+				} else {
+					rows[k] = c41WatchRow{returned: w["returned"], negotiated: w["negotiated"]}
+				}
+			}
+			if rows[0].returned != rows[1].returned {
+				c41Fail(fset, fd, "whether the returned connection gets a close-watcher depends on `c.quic == q`")
+			}
+			out[dir][reused] = rows[1]
+		}
+	}
+	if len(out) != 2 || !sawHandlePeer {
+		fmt.Fprintln(os.Stderr, "c41-facts: handleIncoming / handleOutgoing / handlePeer not found in "+path)
+		os.Exit(1)
+	}
+	return out
+}
+
+func c41WatchLean(rows map[string]map[bool]c41WatchRow) string {
+	leaf := func(r c41WatchRow) string {
+		return fmt.Sprintf("{ returned := %s, negotiated := %s }", c41B(r.returned), c41B(r.negotiated))
+	}
+	var b strings.Builder
+	b.WriteString("  match dir with\n")
+	for _, d := range []string{"incoming", "outgoing"} {
+		fmt.Fprintf(&b, "  | Dir.%s =>\n      if reused = true then\n        %s\n      else\n        %s\n", d, leaf(rows[d][true]), leaf(rows[d][false]))
+	}
+	return b.String()
+}
+
+func c41Args(args []string) (string, string, string) {
+	if len(args) != 3 {
+		fmt.Fprintln(os.Stderr, "c41-facts: usage: c41-facts|c41-lines <overlay/reuse.go> <overlay/reaper.go> <overlay/transport.go>")
 		os.Exit(2)
 	}
-	return args[0], args[1]
+	return args[0], args[1], args[2]
 }
 
 func init() {
 	factCmds["c41-facts"] = func(args []string) {
-		reuse, reaper := c41Args(args)
+		reuse, reaper, transport := c41Args(args)
 		snapN, decN := c41Trees(reuse)
 		reapN := c41ReapTree(reaper)
-		fmt.Print(`/- GENERATED by extract c41-facts from overlay/reuse.go (func reuseConnection) and overlay/reaper.go
-(func reapPeer). Do not edit. -/
+		watchRows := c41WatchFacts(transport)
+		fmt.Print(`/- GENERATED by extract c41-facts from overlay/reuse.go (func reuseConnection), overlay/reaper.go
+(func reapPeer) and overlay/transport.go (func handleIncoming / handleOutgoing / handlePeer). Do not edit. -/
 namespace Gen.C41
 
 inductive Dir where
@@ -783,15 +1147,36 @@ that triggered the reap is closed -/
 def reap (loaded : Bool) : ReapAct :=
 `)
 		fmt.Println(reapN.lean("  "))
+		fmt.Print(`
+/-- the close-watchers (goroutines that wait for a connection to be closed and then call reapPeer for it) that
+handleIncoming / handleOutgoing start once reuseConnection returned without error (facts of overlay/transport.go) -/
+structure WatchAct where
+  returned : Bool
+  negotiated : Bool
+deriving DecidableEq, Repr
+
+/-- dir = handleIncoming / handleOutgoing, reused = the flag reuseConnection returned; returned = the connection
+reuseConnection returned gets a close-watcher (handlePeer), negotiated = the connection that was negotiated gets one
+although ANOTHER connection was returned -/
+def watch (dir : Dir) (reused : Bool) : WatchAct :=
+`)
+		fmt.Print(c41WatchLean(watchRows))
 		fmt.Print("\nend Gen.C41\n")
 	}
 	factCmds["c41-lines"] = func(args []string) {
-		reuse, reaper := c41Args(args)
+		reuse, reaper, transport := c41Args(args)
 		snapN, decN := c41Trees(reuse)
 		reapN := c41ReapTree(reaper)
+		watchRows := c41WatchFacts(transport)
 		defer func() {
 			for _, loaded := range []bool{true, false} {
 				fmt.Printf("reap %s => %s\n", c41B(loaded), reapN.eval(&c41Env{rc: loaded}))
+			}
+			for _, d := range []string{"incoming", "outgoing"} {
+				for _, reused := range []bool{true, false} {
+					w := watchRows[d][reused]
+					fmt.Printf("watch %s %s => returned=%s,negotiated=%s\n", d, c41B(reused), c41B(w.returned), c41B(w.negotiated))
+				}
 			}
 		}()
 		bs := []bool{true, false}
